@@ -165,6 +165,7 @@ def rule_transparent_call(ctx):
     if m is None:
         raise A.AnchorLost(f"{MOD}::FmtAttribute::transparent_call", "match on the placeholder's argument not found")
     n_int = 0
+    als = A.aliases(fn, allow_closures=True)
     for arm in m["arms"]:
         pr = A.render_pat(arm["pat"])
         for tsp, _ in A.find(arm["pat"], "Pat::TupleStruct"):
@@ -191,7 +192,7 @@ def rule_transparent_call(ctx):
                     "index 1 does not denote it (std rejects the literal: the derive must fall back to `write!` and fail to compile)",
                     {},
                 )
-        body = A.render(A.unblock(arm["body"]))
+        body = A.inline_text(A.render(A.unblock(arm["body"])), als)
         if ("Integer" in pr or pr == "None" or "None" in pr.split("|")) and body != "None":
             ctx.instance("transparent_call:positional-arm")
             if "self.args.len()==1" not in body:
@@ -427,7 +428,7 @@ def rule_binder_align(ctx):
             r = A.render(init["expr"])
             if "format_ident!" in r and "_{" in r:
                 binder = (A.render_pat(loc["pat"]), r, loc)
-        tt = [T.ir_text(t.ir).replace(" ", "") for t in T.templates_of(fn)]
+        tt = [T.ir_text(t.ir).replace(" ", "") for t in T.templates_of(fn, composed=True)]
         pats = [x for x in tt if x.startswith("Self::#")]
         if binder is None or not re.fullmatch(r"\w+", binder[0]) or not re.fullmatch(r"\w+\.fields\.iter\(\)\.enumerate\(\)\.map\(.*\)", binder[1]):
             ctx.report(
